@@ -332,7 +332,7 @@ def one_datatype_object(ctx):
         fi = m.method(D, name, inherited=False)
         for c in calls_in(fi.node):
             if call_attr(c) in ('import_value', 'validate'):
-                ctx.check(src(c.func.value).endswith('.datatype'), f'{fi.qualname}:{call_attr(c)} on .datatype', c,
+                ctx.check(src(resolved(c.func.value, fi.node)).endswith('.datatype'), f'{fi.qualname}:{call_attr(c)} on .datatype', c,
                           'request path uses pobj.datatype', f'`{src(c.func)}` is not a method of pobj.datatype', fi)
     pe = m.method(roles.PARAMETER, 'export_value', inherited=False)
     ok = any(call_attr(c) == 'export_value' and src(c.func.value) == 'self.datatype' for c in calls_in(pe.node))
@@ -390,7 +390,7 @@ def change_path_validates_like_the_description(ctx):
     c04.command_argument_presence_is_enforced(ctx)
     m = ctx.m
     f = m.method(D, '_setParameterValue', inherited=False)
-    vals = [c for c in calls_in(f.node) if call_attr(c) == 'validate' and src(c.func.value).endswith('.datatype')]
+    vals = [c for c in calls_in(f.node) if call_attr(c) == 'validate' and src(resolved(c.func.value, f.node)).endswith('.datatype')]
     ctx.check(bool(vals) and all(kwarg(c, 'previous') is not None for c in vals), f'{f.qualname}:validate(previous=cache) on the change path', f.node,
               'pobj.datatype.validate(value, previous=pobj.value)',
               'the change path does not validate with previous=<cached value>: a partial struct that the described datainfo accepts is refused '
